@@ -27,6 +27,10 @@ def pool_descs():
     for w in (-2, -1, 1, 2, 52):
         out.append({"weeks": w})
     out.append({})
+    # long exact durations that differ by a second or a day (total length alone decides equality)
+    out += [{"days": 20000}, {"days": 20000, "seconds": 1}, {"weeks": 3000}, {"days": 21000, "seconds": 1},
+            {"days": 21000}, {"hours": 480000}, {"seconds": 1728000000}, {"seconds": 1728000001},
+            {"years": 50, "days": 20000}, {"years": 50, "days": 20000, "seconds": 1}]
     return out
 
 
